@@ -84,20 +84,23 @@ structure Good (cap : Nat) (s : Sys) : Prop where
 theorem step_refines (cap : Nat) (s : Sys) (op : Op) (g : Good cap s) :
     ∃ s', runOp op s = (.ok (Spec.step cap (abs s.buf) op).2, s') ∧ Good cap s' ∧
       abs s'.buf = (Spec.step cap (abs s.buf) op).1 ∧
-      s'.log = dropEvents s.kind (Spec.destroyed (abs s.buf) op) ++ s.log ∧ s'.kind = s.kind := by
+      s'.log = dropEvents s.kind (Spec.destroyed (abs s.buf) op) ++ s.log ∧ s'.kind = s.kind ∧
+      s'.next = s.next ∧ s'.faults = s.faults := by
   obtain ⟨h, hc, hd⟩ := g
   have fromRefines : ∀ {α : Type} (m : M α) (r : α) (xs' : List Elem) (f : α → Out),
       Refines m s r xs' → ∃ s', (m >>= fun a => pure (f a)) s = (.ok (f r), s') ∧ Good cap s' ∧
-        abs s'.buf = xs' ∧ s'.log = dropEvents s.kind [] ++ s.log ∧ s'.kind = s.kind := by
+        abs s'.buf = xs' ∧ s'.log = dropEvents s.kind [] ++ s.log ∧ s'.kind = s.kind ∧
+        s'.next = s.next ∧ s'.faults = s.faults := by
     intro α m r xs' f ⟨b', e, i, a, c⟩
     exact ⟨{ s with buf := b' }, by simp only [bind_run, e, pure_run], ⟨i, by rw [c, hc], hd⟩, a,
-      by simp [dropEvents_nil], rfl⟩
+      by simp [dropEvents_nil], rfl, rfl, rfl⟩
   have fromRefinesL : ∀ (m : M Unit) (xs' : List Elem) (evs : List Event),
       RefinesL m s () xs' evs → ∃ s', (m >>= fun _ => pure Out.unit) s = (.ok Out.unit, s') ∧
-        Good cap s' ∧ abs s'.buf = xs' ∧ s'.log = evs ++ s.log ∧ s'.kind = s.kind := by
+        Good cap s' ∧ abs s'.buf = xs' ∧ s'.log = evs ++ s.log ∧ s'.kind = s.kind ∧
+        s'.next = s.next ∧ s'.faults = s.faults := by
     intro m xs' evs ⟨b', e, i, a, c⟩
     exact ⟨{ s with buf := b', log := evs ++ s.log }, by simp only [bind_run, e, pure_run],
-      ⟨i, by rw [c, hc], hd⟩, a, rfl, rfl⟩
+      ⟨i, by rw [c, hc], hd⟩, a, rfl, rfl, rfl, rfl⟩
   cases op with
   | pushBack x => simpa [runOp, Spec.step, Spec.destroyed, hc] using fromRefines _ _ _ Out.elem (pushBack_spec s x h)
   | pushFront x => simpa [runOp, Spec.step, Spec.destroyed, hc] using fromRefines _ _ _ Out.elem (pushFront_spec s x h)
@@ -115,13 +118,13 @@ theorem step_refines (cap : Nat) (s : Sys) (op : Op) (g : Good cap s) :
     by_cases hi : i < s.buf.size
     · by_cases hj : j < s.buf.size
       · obtain ⟨b', e, i', a, c⟩ := swap_spec s i j h hi hj
-        refine ⟨{ s with buf := b' }, ?_, ⟨i', by rw [c, hc], hd⟩, ?_, by simp [Spec.destroyed, dropEvents_nil], rfl⟩
+        refine ⟨{ s with buf := b' }, ?_, ⟨i', by rw [c, hc], hd⟩, ?_, by simp [Spec.destroyed, dropEvents_nil], rfl, rfl, rfl⟩
         · simp only [runOp, bind_run, attempt, e, pure_run, Spec.step, hlen, hi, hj, if_true]
         · simp only [Spec.step, hlen, hi, hj, if_true]; exact a
-      · refine ⟨s, ?_, ⟨h, hc, hd⟩, by simp [Spec.step, hlen, hi, hj], by simp [Spec.destroyed, dropEvents_nil], rfl⟩
+      · refine ⟨s, ?_, ⟨h, hc, hd⟩, by simp [Spec.step, hlen, hi, hj], by simp [Spec.destroyed, dropEvents_nil], rfl, rfl, rfl⟩
         simp only [runOp, bind_run, attempt, swap_panics_j s i j hi hj, pure_run, Spec.step, hlen, hi,
           hj, if_true, if_false]
-    · refine ⟨s, ?_, ⟨h, hc, hd⟩, by simp [Spec.step, hlen, hi], by simp [Spec.destroyed, dropEvents_nil], rfl⟩
+    · refine ⟨s, ?_, ⟨h, hc, hd⟩, by simp [Spec.step, hlen, hi], by simp [Spec.destroyed, dropEvents_nil], rfl, rfl, rfl⟩
       simp only [runOp, bind_run, attempt, swap_panics_i s i j hi, pure_run, Spec.step, hlen, hi,
         if_false]
   | truncateBack n =>
@@ -133,7 +136,7 @@ theorem step_refines (cap : Nat) (s : Sys) (op : Op) (g : Good cap s) :
     obtain ⟨b', v, e, i, a, c, _⟩ := makeContiguous_spec s h
     exact ⟨{ s with buf := b' }, by simp only [runOp, bind_run, e, pure_run, Spec.step],
       ⟨i, by rw [c, hc], hd⟩, by simp only [Spec.step]; exact a,
-      by simp [Spec.destroyed, dropEvents_nil], rfl⟩
+      by simp [Spec.destroyed, dropEvents_nil], rfl, rfl, rfl⟩
 
 /-- run a whole history, collecting the outputs -/
 def runOps : List Op → Sys → List Out × Sys
@@ -176,7 +179,7 @@ theorem history_ledger (cap : Nat) (ops : List Op) (s : Sys) (g : Good cap s) :
   induction ops generalizing s with
   | nil => simp [runOps, Spec.histDrops]
   | cons op rest ih =>
-    obtain ⟨s', e, g', a, l, k⟩ := step_refines cap s op g
+    obtain ⟨s', e, g', a, l, k, _, _⟩ := step_refines cap s op g
     have := ih s' g'
     simp only [runOps, e, Spec.histDrops]
     rw [this, a, l, k, List.append_assoc]
